@@ -123,6 +123,32 @@ def t2_ctl(sx, S, which, tlvlen):
     return exercise(sx, w, "tt2:control-tlv", max_cmds=4 * (len(m) // 4) + 60)
 
 
+def t2_ctl256(sx, which, rsv, oldlen):
+    """a stored message that runs across the bytes a control TLV with size
+    byte 00h reserves (256 lock bits = 32 bytes / 256 reserved bytes): what
+    the reader returns are the octets of the data area, and its capacity does
+    not count the reserved bytes"""
+    w = worlds.T2World(sx, 872, which, [tuple(rsv)], oldlen, symbolic_window=(0, 0), terminator=1)
+    kind = "tt2:control-tlv-size-00h:" + which
+    w.sim.max_cmds = 1200
+    try:
+        tag = w.fresh_tag()
+        ndef = tag.ndef if tag is not None else None
+    except tags.TooManyCommands:
+        sx.check(False, "unbounded-number-of-commands:" + kind)
+    if ndef is None:
+        sx.check(False, "well-formed-message-not-read:" + kind)
+    sx.reach("t2_ctl_size_00h")
+    octets = ndef.octets
+    sx.check(len(octets) == ndef.length and ndef.length <= ndef.capacity,
+             "length-exceeds-capacity:" + kind)
+    sx.check(ndef.capacity <= w.cap, "capacity-exceeds-data-area:" + kind)
+    if len(octets) != len(w.old):
+        sx.check(False, "octets-outside-data-area:" + kind)
+    sx.check(sx.eq(octets, w.old), "octets-are-not-what-the-data-area-holds:" + kind)
+    return "ndef"
+
+
 def t2_unknown(sx, S):
     w = worlds.T2World(sx, S, "", [], 0, symbolic_window=(0, 0), terminator=1)
     m = w.sim.mem
@@ -589,6 +615,8 @@ def partitions(tier):
         for tlvlen in (3, 0, 2, 5, 255):
             add("t2:ctl:%d:%d" % (which, tlvlen), "t2_ctl", S=48, which=which, tlvlen=tlvlen)
     add("t2:unknown", "t2_unknown", S=48)
+    add("t2:ctl256:L", "t2_ctl256", which="L", rsv=(384, 32), oldlen=400)
+    add("t2:ctl256:M", "t2_ctl256", which="M", rsv=(384, 256), oldlen=400)
     add("t2:tiny:1:3", "t2_tiny", size_byte=1, ndata=3)
     if tier != "quick":
         add("t2:tiny:2:3", "t2_tiny", size_byte=2, ndata=3)
@@ -641,8 +669,8 @@ def partitions(tier):
     return P
 
 
-MUST_REACH = ["t1_long_object", "v3_32k_object", "v3_32k_none", "activate_none", "ndef_none", "ndef_object"]
-BOUNDS = {"quick": "mutations of valid layouts with symbolic mutated fields (see module docstring): TLV length fields, CC bytes, control TLVs, Type 3 attribute block (symbolic fields, boundary sets for Nbr/Ln, Nbr up to 255 with Ln up to 4080), PMm, polling answers of every length with/without system code in SENSF_RES, arbitrary first read answers, Type 4 CC file fields, NLEN/ENLEN around the end of the file for both mapping versions (guard bytes behind the file), MLe up to FFFFh with a 400-byte file, short and over-long READ BINARY answers, mapping version 3 with NLEN above 65535, mapping version 3 with a 36 KiB file of position-dependent contents and messages ending around offset 8000h (octets compared with the file; the card reads P1 bit 8 as short file identifier per ISO/IEC 7816-4), ATS of 1..7 symbolic bytes, SENSB_RES protocol info; a fully symbolic Type 2 image of 3 data bytes; GET_VERSION variants; silence from every command index; added later: a 100-octet message across the reserved blocks of a 256/512-byte Type 1 tag with HR0 from {11h,12h,1Fh,10h,21h}, octets compared with the data area",
+MUST_REACH = ["t2_ctl_size_00h", "t1_long_object", "v3_32k_object", "v3_32k_none", "activate_none", "ndef_none", "ndef_object"]
+BOUNDS = {"quick": "mutations of valid layouts with symbolic mutated fields (see module docstring): TLV length fields, CC bytes, control TLVs, Type 3 attribute block (symbolic fields, boundary sets for Nbr/Ln, Nbr up to 255 with Ln up to 4080), PMm, polling answers of every length with/without system code in SENSF_RES, arbitrary first read answers, Type 4 CC file fields, NLEN/ENLEN around the end of the file for both mapping versions (guard bytes behind the file), MLe up to FFFFh with a 400-byte file, short and over-long READ BINARY answers, mapping version 3 with NLEN above 65535, mapping version 3 with a 36 KiB file of position-dependent contents and messages ending around offset 8000h (octets compared with the file; the card reads P1 bit 8 as short file identifier per ISO/IEC 7816-4), ATS of 1..7 symbolic bytes, SENSB_RES protocol info; a fully symbolic Type 2 image of 3 data bytes; GET_VERSION variants; silence from every command index; added later: a 100-octet message across the reserved blocks of a 256/512-byte Type 1 tag with HR0 from {11h,12h,1Fh,10h,21h}, octets compared with the data area; a 400-byte message stored across the range of a Type 2 lock/memory control TLV with size byte 00h",
           "thorough": "fully symbolic T2 images of 3 data bytes under three CC sizes; ATS up to 9 bytes; two arbitrary ISO-DEP blocks"}
 OUTSIDE = ["fully symbolic images larger than stated", "more than one mutated structure per image", "NXP GET_VERSION/signature answer variants (concrete in C20's model)"]
 ASSUMPTIONS = ["tags answer well-framed: the simulators of env/tags.py with mutated contents"]
